@@ -490,6 +490,60 @@ pub fn unit_update_modules() -> Vec<(String, Vec<String>, Vec<String>)> {
     v
 }
 
+/// a quick return replaces the whole body, so it also lifts what only a body needs: a tuple struct mapped to a NAMED
+/// counterpart (`as {}`) without any member names is accepted when - and only because - the instruction returns early
+/// (seed C08-12: the exemption was lost for the into_existing kinds)
+pub fn return_unnamed_modules() -> Vec<(String, Vec<String>, Vec<String>)> {
+    let mut v = vec![];
+    let d = "#[derive(Clone, Debug, PartialEq, Default)]";
+    for which in 0..4usize {
+        // 0 = from only, 1 = into only, 2 = into_existing only, 3 = all three
+        let has = |g: usize| which == 3 || which == g;
+        let mut item = String::new();
+        for (cp, t, e) in [("T", "", ""), ("Tf", "try_", ", Er")] {
+            let ok = |x: String| if cp == "Tf" { format!("Ok({})", x) } else { x };
+            if has(0) {
+                item.push_str(&format!("#[{t}from({cp} as {{}}{e}| return {})]\n", ok("S(31, 32)".into())));
+            }
+            if has(1) {
+                item.push_str(&format!("#[{t}into({cp} as {{}}{e}| return {})]\n", ok(format!("{cp} {{ a: 41, b: 42 }}"))));
+            }
+            if has(2) {
+                item.push_str(&format!("#[{t}into_existing({cp} as {{}}{e}| return {cp} {{ a: 51, b: 52 }})]\n"));
+            }
+        }
+        item.push_str("pub struct S(pub i32, pub i32);\n");
+        let mut m = String::from("#![allow(unused, non_camel_case_types, clippy::all)]\nuse crate::common::*;\nuse o2o::traits::*;\n");
+        m.push_str(&format!("{d} pub struct T {{ pub a: i32, pub b: i32 }}\n{d} pub struct Tf {{ pub a: i32, pub b: i32 }}\n"));
+        m.push_str(&format!("{d}\n#[derive(o2o::o2o)]\n{}", item));
+        m.push_str("pub fn run(r: &mut Rec) {\n");
+        for (cp, fallible) in [("T", false), ("Tf", true)] {
+            let l = if fallible { "try_" } else { "" };
+            let w = |x: &str| if fallible { format!("Ok::<_, Er>({})", x) } else { x.to_string() };
+            if has(0) {
+                let (o, rf) = if fallible { (format!("<S as TryFrom<{cp}>>::try_from"), format!("<S as TryFrom<&{cp}>>::try_from")) } else { (format!("<S as From<{cp}>>::from"), format!("<S as From<&{cp}>>::from")) };
+                m.push_str(&format!("  {{ let t = {cp} {{ a: 1, b: 2 }}; r.eq(\"{l}from_owned\", &{o}(t.clone()), &{}); r.eq(\"{l}from_ref\", &{rf}(&t), &{}); }}\n", w("S(31, 32)"), w("S(31, 32)")));
+            }
+            if has(1) {
+                let (o, rf) = if fallible { (format!("<S as TryInto<{cp}>>::try_into"), format!("<&S as TryInto<{cp}>>::try_into")) } else { (format!("<S as Into<{cp}>>::into"), format!("<&S as Into<{cp}>>::into")) };
+                let e = format!("{cp} {{ a: 41, b: 42 }}");
+                m.push_str(&format!("  {{ let s = S(1, 2); r.eq(\"{l}owned_into\", &{o}(s.clone()), &{}); r.eq(\"{l}ref_into\", &{rf}(&s), &{}); }}\n", w(&e), w(&e)));
+            }
+            if has(2) {
+                let e = format!("{cp} {{ a: 51, b: 52 }}");
+                if fallible {
+                    m.push_str(&format!("  {{ let s = S(1, 2); let mut o1 = {cp} {{ a: 900, b: 901 }}; let r1 = <S as TryIntoExisting<{cp}>>::try_into_existing(s.clone(), &mut o1); r.eq(\"try_owned_into_existing\", &r1.map(|_| o1), &Ok::<_, Er>({e})); let mut o2 = {cp} {{ a: 900, b: 901 }}; let r2 = <&S as TryIntoExisting<{cp}>>::try_into_existing(&s, &mut o2); r.eq(\"try_ref_into_existing\", &r2.map(|_| o2), &Ok::<_, Er>({e})); }}\n"));
+                } else {
+                    m.push_str(&format!("  {{ let s = S(1, 2); let mut o1 = {cp} {{ a: 900, b: 901 }}; <S as IntoExisting<{cp}>>::into_existing(s.clone(), &mut o1); r.eq(\"owned_into_existing\", &o1, &{e}); let mut o2 = {cp} {{ a: 900, b: 901 }}; <&S as IntoExisting<{cp}>>::into_existing(&s, &mut o2); r.eq(\"ref_into_existing\", &o2, &{e}); }}\n"));
+                }
+            }
+        }
+        m.push_str("}\n");
+        v.push((m, vec![item], vec!["host=unnamed-tuple-as-named".to_string(), format!("returning={}", ["from", "into", "into_existing", "all"][which])]));
+    }
+    v
+}
+
 fn nested_bounds(tier: &str) -> (crate::sem_flat::FlatOpts, Option<usize>, usize, Option<usize>) {
     use crate::sem_flat::FlatOpts;
     if tier == "quick" {
@@ -501,7 +555,7 @@ fn nested_bounds(tier: &str) -> (crate::sem_flat::FlatOpts, Option<usize>, usize
 
 pub fn run(tier: &str) -> i32 {
     let rep = Report::new("C08", tier, "model_checking");
-    rep.set_rule("part A (placement, structural): each of the 24 trait-instruction names x {named struct, enum with ghosts, struct with bare parent + ghosts} x every subset of {attribute, impl_attribute, inner_attribute, vars} in EVERY order x terminal {none, ..update, return} + a parameterless instruction for a second counterpart: in every impl the instruction produces (M_appl) the attribute is an outer attribute of the fn, the impl_attribute of the impl, the inner_attribute an inner attribute at the head of the fn body, each exactly once and nowhere else; impls of the other instruction carry none. Part B (behaviour through rustc + execution): per direction group {from, into, into_existing} x {vars or not} x {none, ..update, return} x {bare #[parent] member or not}, all 12 kinds: vars expressions call a logging helper - the log must be [vz, va, member expression] (each once, in DECLARATION order - the names are declared in non-alphabetical order -, vars first) and member expressions read both; ..base() supplies exactly the leaves no member provides; return make(M) is the whole result (*other == make(M) for into_existing); the same for an enum host (tuple / named variant): vars are evaluated once before the generated match - also when the unit variant is converted -, quick return replaces the match; `update-child` / `update-parent`: the flattening cases of C03 (#[child] + #[child_parents], parameterised #[parent(..)]) with `..Default::default()` on the conversions and one more field in EVERY struct of the result - the nested ones included - that only the update expression can supply (0 after Into / From, untouched by IntoExisting); `update-unit`: unit-struct hosts whose counterpart fields all come from `..update` (hint `as {}`) or from #[ghosts] + `..update`, with and without vars read by the update expression. states = distinct inputs / test modules");
+    rep.set_rule("part A (placement, structural): each of the 24 trait-instruction names x {named struct, enum with ghosts, struct with bare parent + ghosts} x every subset of {attribute, impl_attribute, inner_attribute, vars} in EVERY order x terminal {none, ..update, return} + a parameterless instruction for a second counterpart: in every impl the instruction produces (M_appl) the attribute is an outer attribute of the fn, the impl_attribute of the impl, the inner_attribute an inner attribute at the head of the fn body, each exactly once and nowhere else; impls of the other instruction carry none. Part B (behaviour through rustc + execution): per direction group {from, into, into_existing} x {vars or not} x {none, ..update, return} x {bare #[parent] member or not}, all 12 kinds: vars expressions call a logging helper - the log must be [vz, va, member expression] (each once, in DECLARATION order - the names are declared in non-alphabetical order -, vars first) and member expressions read both; ..base() supplies exactly the leaves no member provides; return make(M) is the whole result (*other == make(M) for into_existing); the same for an enum host (tuple / named variant): vars are evaluated once before the generated match - also when the unit variant is converted -, quick return replaces the match; `update-child` / `update-parent`: the flattening cases of C03 (#[child] + #[child_parents], parameterised #[parent(..)]) with `..Default::default()` on the conversions and one more field in EVERY struct of the result - the nested ones included - that only the update expression can supply (0 after Into / From, untouched by IntoExisting); `update-unit`: unit-struct hosts whose counterpart fields all come from `..update` (hint `as {}`) or from #[ghosts] + `..update`, with and without vars read by the update expression; `return-unnamed`: a tuple struct mapped to a named counterpart without member names, legal only because every instruction returns early (from / into / into_existing alone and together). states = distinct inputs / test modules");
     rep.assume("the statement's `on every impl the instruction produces` is read with M_appl; bare #[parent] is combined with vars only (its combination with ..update / return is KF-C17-01)");
     let caps = Caps::from_env(if tier == "quick" { 200.0 } else { 1200.0 });
     run_space(&Placement, None, &caps, &rep);
@@ -531,6 +585,12 @@ pub fn run(tier: &str) -> i32 {
         items.lock().unwrap().push(BItem { space: "update-unit".into(), choices: vec![i as u32], tags, inputs, module, nontrivial: true });
     }
     rep.add_stats("update-unit", "full (fixed layouts)", &crate::explore::ExploreStats { leaves: nu, transitions: nu, ..Default::default() });
+    let ru = return_unnamed_modules();
+    let nr = ru.len() as u64;
+    for (i, (module, inputs, tags)) in ru.into_iter().enumerate() {
+        items.lock().unwrap().push(BItem { space: "return-unnamed".into(), choices: vec![i as u32], tags, inputs, module, nontrivial: true });
+    }
+    rep.add_stats("return-unnamed", "full (fixed layouts)", &crate::explore::ExploreStats { leaves: nr, transitions: nr, ..Default::default() });
     if let Err(e) = run_items("C08", items.into_inner().unwrap(), &rep, BOpts { no_std: false, features: "", name: "c08".into(), keep: std::env::var("VERIF_KEEP").is_ok() }) {
         eprintln!("MACHINERY-ERROR: {}", e);
         return 2;
@@ -555,6 +615,7 @@ pub fn replay(f: &Failure) -> i32 {
                 let (c, full) = replay_one(gen_e, &f.choices);
                 mk(c.map(|c| (c.tags.clone(), c.item_text(), c.render_module())), full)
             }
+            "return-unnamed" => return_unnamed_modules().into_iter().enumerate().find(|(i, _)| vec![*i as u32] == f.choices).map(|(_, (module, inputs, tags))| BItem { space: f.space.clone(), choices: f.choices.clone(), tags, inputs, module, nontrivial: true }),
             "update-unit" => unit_update_modules().into_iter().enumerate().find(|(i, _)| vec![*i as u32] == f.choices).map(|(_, (module, inputs, tags))| BItem { space: f.space.clone(), choices: f.choices.clone(), tags, inputs, module, nontrivial: true }),
             "update-child" => {
                 let mut got = None;
